@@ -27,6 +27,10 @@ var urlPrefixValidators = map[sanitizationContext]func(string) error{
 var startsWithFullySpecifiedSchemePattern = regexp.MustCompile(
 	`^[[:alpha:]](?:[[:alnum:]]|[+.-])*:`)
 
+// colonInFirstSegmentPattern matches strings that have a ':' before any '/', '?' or '#', that is,
+// strings whose ':' ends a scheme when they are appended to a URL that has none of these runes.
+var colonInFirstSegmentPattern = regexp.MustCompile(`^[^/?#]*:`)
+
 // validateURLPrefix validates if the given non-empty prefix is a safe safehtml.URL prefix.
 //
 // Prefixes are considered unsafe if they end in an incomplete HTML character reference
